@@ -59,6 +59,7 @@ class Ruler:
         find a rule matching the rule ID of a SCHC packet
         '''
         matching_rule: RuleFieldDescriptor
+        rule_id: Buffer = None
         # iterate though rules and try matching the rule ID with SCHC packet beginning
         for rule in self.rules:
             rule_id: Buffer = rule.id
